@@ -45,6 +45,7 @@ static int nvals(char conv) { int c = conv_class(conv); return c == 0 ? 5 : c ==
  * register files, so passing 5 integer slots followed by 4 doubles serves any mixture with <= 5 / <= 4 */
 static long IA[5]; static double DA[4]; static int ni, nd;
 static char fmt[2048];
+static int star_negative;
 
 static int add_dir(const struct dir *d, size_t *fl)
 {
@@ -52,8 +53,9 @@ static int add_dir(const struct dir *d, size_t *fl)
 	static const long ivals[] = { 0, 1, -1, 0, 0 };   /* MIN / MAX filled per type below */
 	*fl += snprintf(fmt + *fl, sizeof fmt - *fl, "%%%s%s%s%s%c", FLAGS[d->flags], WIDTHS[d->width], PRECS[d->prec], LENS[d->lenmod], d->conv);
 	if (d->conv == '%') return 1;
-	if (d->width == 3) { if (ni >= 5) return 0; IA[ni++] = 7; }
-	if (d->prec == 3) { if (ni >= 5) return 0; IA[ni++] = 2; }
+	/* a negative '*' width means left adjustment, a negative '*' precision means none was given (C99 7.19.6.1) */
+	if (d->width == 3) { if (ni >= 5) return 0; IA[ni++] = star_negative ? -7 : 7; }
+	if (d->prec == 3) { if (ni >= 5) return 0; IA[ni++] = star_negative ? -1 : 2; }
 	switch (cls) {
 	case 0: {
 		long v = ivals[d->val];
@@ -115,6 +117,7 @@ static void run(void)
 	for (i = 0; i < n; i++) {
 		pick_dir(&D[i], i);
 		if (!legal(&D[i])) { vp_pruned(); return; }
+		if (i == 0) star_negative = (D[i].width == 3 || D[i].prec == 3) ? vp_choose(2, "sign of the '*' arguments") : 0;
 		if (!(reduced && i > 0)) D[i].val = vp_choose(nvals(D[i].conv), "argument value");
 		fl += snprintf(fmt + fl, sizeof fmt - fl, "%s", lit[i]);
 		if (!add_dir(&D[i], &fl)) { vp_pruned(); return; }
